@@ -355,14 +355,15 @@ func refDecimal(n int64) string {
 		return "0"
 	}
 	neg := n < 0
-	// work on the negative side to cover MinInt64
-	if !neg {
-		n = -n
+	// unsigned magnitude: uint64(-n) is 2^63 for MinInt64, which is what is wanted
+	u := uint64(n)
+	if neg {
+		u = -u
 	}
 	var rev []byte
-	for n != 0 {
-		rev = append(rev, byte('0'-(n%10)))
-		n /= 10
+	for u != 0 {
+		rev = append(rev, byte('0'+u%10))
+		u /= 10
 	}
 	var out []byte
 	if neg {
